@@ -16,6 +16,10 @@ THEOREMS = {
         "Dawgs.C10.Props.literal_roundtrip_int", "Dawgs.C10.Props.literal_roundtrip_float_fixed",
         "Dawgs.C10.Props.literal_roundtrip_string_token", "Dawgs.C10.Props.literal_roundtrip_list",
         "Dawgs.C10.Props.float_integral_becomes_int", "Dawgs.C10.Props.literal_roundtrip_string",
+        "Dawgs.C10.Props.prepare_preserves_eval", "Dawgs.C10.Props.hoist_from_or_changes_meaning",
+        "Dawgs.C10.Props.hoist_from_xor_changes_meaning", "Dawgs.C10.Props.prepare_keeps_negated_kind_matcher",
+        "Dawgs.C10.Props.hoist_from_negation_changes_meaning", "Dawgs.C10.Props.two_hoisted_conjuncts_change_meaning",
+        "Dawgs.C10.Props.hoist_all_of_changes_meaning", "Dawgs.C10.Props.string_negation_guard_eval",
     ],
 }
 
@@ -31,25 +35,58 @@ def fields(line):
     return out
 
 
+LIST_ERROR = "expected an expression list AST node"
+
+
 def model_input(op, impl):
-    if impl.startswith(("prepare-error", "render-error", "bad-op", "panic", "skipped")):
+    if impl.startswith(("render-error", "bad-op", "panic", "skipped")):
         return "# " + impl[:60]
     f = fields(impl)
-    if f.get("M", "none") == "none":
+    if impl.startswith("prepare-error"):
+        # the one refusal the Prepare model knows: a relationship kind matcher whose parent is not an expression list
+        if LIST_ERROR in impl and f.get("A", "none") != "none":
+            return "e %s none none %s none" % (MODE, f["A"])
+        return "# " + impl[:60]
+    if f.get("M", "none") == "none" and f.get("A", "none") == "none":
         return "# no where clause"
-    return "e %s %s %s" % (MODE, f.get("M", "none"), f.get("R", "none"))
+    return "e %s %s %s %s %s" % (MODE, f.get("M", "none"), f.get("R", "none"), f.get("A", "none"), f.get("RK", "none"))
+
+
+def blank_params(term):
+    return re.sub(r'\(param "[^"]*"\)', '(param "")', term)
+
+
+def prep_view_impl(f, error=False):
+    if error:
+        return " | prep=error/error"
+    if f.get("A", "none") == "none" or "(unmodelled " in f.get("A", "") or "(unmodelled " in f.get("M", ""):
+        return ""
+    rk = f.get("RK", "none")
+    return " | prep=%s/%s" % ("(ks)" if rk == "none" else rk, blank_params(f.get("M", "none")))
+
+
+def prep_view_model(f):
+    if "pk" not in f:
+        return ""
+    return " | prep=%s/%s" % (f.get("pk"), f.get("pw"))
 
 
 def impl_view(impl):
-    if impl.startswith(("prepare-error", "render-error", "bad-op", "panic", "skipped")):
+    if impl.startswith(("render-error", "bad-op", "panic", "skipped")):
         return "#"
     f = fields(impl)
-    if f.get("M", "none") == "none":
+    if impl.startswith("prepare-error"):
+        if LIST_ERROR in impl and f.get("A", "none") != "none":
+            return "not-in-algebra" if "(unmodelled " in f["A"] else "nowhere" + prep_view_impl(f, error=True)
         return "#"
+    if f.get("M", "none") == "none":
+        if f.get("A", "none") == "none":
+            return "#"
+        return "not-in-algebra" if "(unmodelled " in f["A"] else "nowhere" + prep_view_impl(f)
     if f.get("gm") == "unmodelled":
         return "not-in-algebra"
     # the Lean side must (1) write the same tokens, (2) compute the same normal forms, (3) predict the re-parse
-    return "toks=%s | nm=%s | nr=%s | reparse=%s" % (f.get("toks"), f.get("gm"), f.get("gr"), f.get("gr") if f.get("gr") != "unmodelled" else "none")
+    return "toks=%s | nm=%s | nr=%s | reparse=%s" % (f.get("toks"), f.get("gm"), f.get("gr"), f.get("gr") if f.get("gr") != "unmodelled" else "none") + prep_view_impl(f)
 
 
 def model_view(model):
@@ -58,8 +95,10 @@ def model_view(model):
     if model.startswith("unmodelled(") or model.startswith("bad-op"):
         return "not-in-algebra" if model.startswith("unmodelled(") else model
     f = fields(model)
+    if model.startswith("nowhere"):
+        return "nowhere" + prep_view_model(f)
     nr = "unmodelled" if "runmodelled" in f else f.get("nr")
-    return "toks=%s | nm=%s | nr=%s | reparse=%s" % (f.get("toks"), f.get("nm"), nr, f.get("parse"))
+    return "toks=%s | nm=%s | nr=%s | reparse=%s" % (f.get("toks"), f.get("nm"), nr, f.get("parse")) + prep_view_model(f)
 
 
 SHAPE_ORDER = ["empty-list", "int-out-of-range", "not-over-unparenthesised-not", "not-over-unparenthesised-and",
@@ -90,11 +129,17 @@ def judge(op, impl, model):
     classification of the F8 shapes present in the term; only combines those fields."""
     if impl.startswith("panic"):
         return "reject panic " + impl[:100]
-    if impl.startswith(("prepare-error", "render-error")):
-        return "ok"      # the builder refused the term (reported in branch_hist); nothing was emitted
     if impl.startswith(("bad-op", "skipped")):
         return "ok"
     f = fields(impl)
+    # one criteria VALUE through two fresh neo4j builders and query.Builder (before and after): the caller's tree must
+    # not change and every rendering must give the same text
+    if f.get("idem", "ok") != "ok":
+        return "reject render-not-idempotent " + f["idem"][:300]
+    if f.get("mut", "ok") != "ok":
+        return "reject caller-criteria-mutated " + f["mut"][:300]
+    if impl.startswith(("prepare-error", "render-error")):
+        return "ok"      # the builder refused the term (reported in branch_hist); nothing was emitted
     m = fields(model) if model and not model.startswith(("unmodelled(", "#", "bad-op")) else {}
     if f.get("str", "ok") != "ok":
         return "reject string-literal-escape " + f["str"][:120]
@@ -125,7 +170,17 @@ def judge(op, impl, model):
     if f.get("params", "ok") != "ok":
         p = f["params"]
         return "reject parameter-%s %s" % (p.split(" ")[0], p[:120])
-    if f.get("lift", "ok") != "ok" and "[r:" in f.get("text", ""):
+    # Prepare: the kinds hoisted onto the MATCH pattern are part of the meaning
+    if m.get("eqreal") == "no":
+        return "reject prepare-output-differs-in-meaning-from-model real=%s/%s model=%s/%s text=%s" % (
+            f.get("RK"), blank_params(f.get("M", ""))[:200], m.get("pk"), (m.get("pw") or "")[:200], f.get("text", "")[:160])
+    if m.get("eqapplied") == "no":
+        sites = (m.get("sites") or "-").split(",")
+        cls = next((c for c in ("or", "xor", "allof", "multi") if c in sites), "unknown")
+        name = {"or": "edge-kind-lifted-out-of-or", "xor": "edge-kind-lifted-out-of-xor", "allof": "edge-all-of-kinds-hoisted-as-any-of",
+                "multi": "edge-kind-conjuncts-merged-into-any-of"}.get(cls, "prepare-changes-meaning")
+        return "reject %s text=%s" % (name, f.get("text", "")[:200])
+    if not m and f.get("lift", "ok") != "ok" and "[r:" in f.get("text", ""):
         return "reject edge-kind-lifted-out-of-%s text=%s" % (f["lift"], f.get("text", "")[:200])
     b = f.get("b", "")
     if b and not b.startswith(("ok", "skip-parameters")):
@@ -166,6 +221,8 @@ KEYS = {
     "non-finite-float": "C10:format.Literal:non-finite-float-rendered-as-identifier",
     "raw-string-literal": "C10:query.Literal:raw-go-string-emitted-unquoted",
     "empty-match-pattern": "C10:neo4j.QueryBuilder.prepareMatch:empty-match-pattern",
+    "edge-kind-conjuncts-merged-into-any-of": "C10:neo4j.ExpressionListRewriter:edge-kind-conjuncts-merged-into-any-of",
+    "edge-all-of-kinds-hoisted-as-any-of": "C10:neo4j.ExpressionListRewriter:edge-all-of-kinds-hoisted-as-any-of",
     "edge-kind-lifted-out-of-or": "C10:neo4j.ExpressionListRewriter:edge-kind-matcher-lifted-out-of-or",
     "edge-kind-lifted-out-of-xor": "C10:neo4j.ExpressionListRewriter:edge-kind-matcher-lifted-out-of-xor",
 }
@@ -205,11 +262,12 @@ SPEC = {
     "finding_key": finding_key,
     "rule": "suite c10: every ordered pair of the combinators And/Or/Xor/Not/cypher.NewNegation/NewDisjunction/NewParenthetical (precedence-adjacent "
             "nestings, 3 positions each), every listed string/float/int literal as a bare operand, then random terms over the exported constructors of "
-            "package query (depth 1..5, smallest first; 1500 quick, 2 x 30000 thorough; splitmix64(VERIF_SEED)) wrapped in Returning/OrderBy/Limit/Offset/"
+            "package query (depth 1..5, smallest first; 1500 quick, 2 x 12000 thorough; plus a fifth as many kind-heavy terms; plus the systematic family of relationship/node kind matchers under nested negations and and/or/xor lists before/after sibling negations: 360 quick, 1296 thorough; splitmix64(VERIF_SEED)) wrapped in Returning/OrderBy/Limit/Offset/"
             "Update/Delete; suite rwc10: every Cypher text of the repository corpora through parse -> format.RegularQuery -> re-parse. "
             "non-trivial = a term nesting >= 2 combinators that was rendered and re-parsed, or a corpus query that was compared; distinct = distinct op lines",
     "expected_branches": ["rendered", "builder_path_rendered", "gen.xor", "gen.kind_all_of", "gen.float_literal", "gen.string_literal",
-                          "gen.list_literal", "gen.raw_negation", "gen.order_by", "gen.limit", "gen.update", "gen.delete", "rw.compared"],
+                          "gen.list_literal", "gen.raw_negation", "gen.order_by", "gen.limit", "gen.update", "gen.delete", "gen.kind_nests",
+                          "gen.kind_on_relationship", "rw.compared"],
     "trusted_base": [
         "the lexer level: the harness tokenises the emitted WHERE text (c10Lex) and the Lean model starts at tokens; the string literal is the only "
         "token class modelled at character level (quote/lex/decode, theorem literal_roundtrip_string)",
@@ -235,8 +293,12 @@ MANIFEST = {
             "term with the same normal form (builder_roundtrip_fixed); for the emitter as it is the same holds on the decidable sub-algebra `safe` "
             "(builder_roundtrip_partial) and is refuted by concrete witnesses in the F8 shapes (And over bare Xor/Or, integral floats, all-of kinds, "
             "plus Not over a bare list and repeated NOT) with valuations showing the meaning changes. norm preserves three-valued evaluation "
-            "(norm_preserves_eval). String escaping round-trips for all strings (literal_roundtrip_string). The tie compares, for every generated term, "
-            "Lean emit with the real text token-wise, Lean norm with the harness normaliser, and Lean parse∘emit with the real re-parse.",
+            "(norm_preserves_eval). String escaping round-trips for all strings (literal_roundtrip_string). Prepare's hoisting of a relationship kind "
+            "matcher onto the MATCH pattern preserves the three-valued meaning when the matcher is the only one hoisted, any-of, and in a purely "
+            "conjunctive un-negated position (prepare_preserves_eval), with separating valuations for OR/XOR/negation/second-matcher/all-of. The tie compares, for every generated term, "
+            "Lean emit with the real text token-wise, Lean norm with the harness normaliser, Lean parse∘emit with the real re-parse, and the Lean model of "
+            "Prepare (kinds on the pattern + rewritten WHERE) with the real Prepare; every criteria value is rendered through two fresh neo4j builders and "
+            "query.Builder (texts identical, caller's criteria unchanged).",
     "note": "Known findings are listed in known_findings.json (C10:*). Lexing of tokens other than string literals, ANTLR, and float<->decimal "
             "conversion are trusted and exercised by the tie.",
 }
